@@ -446,10 +446,11 @@ impl MockCluster {
         use scylla::client::PoolSize;
         scylla::client::session_builder::SessionBuilder::new()
             .known_node_addr(self.addr(0))
-            .connection_timeout(Duration::from_millis(1500))
+            // generous: these only matter when the machine is badly overloaded (a healthy handshake takes < 1 ms)
+            .connection_timeout(Duration::from_secs(10))
             .pool_size(PoolSize::PerShard(std::num::NonZeroUsize::new(1).unwrap()))
-            .keepalive_interval(Duration::from_secs(5))
-            .keepalive_timeout(Duration::from_secs(3))
+            .keepalive_interval(Duration::from_secs(60))
+            .keepalive_timeout(Duration::from_secs(30))
             .cluster_metadata_refresh_interval(Duration::from_secs(600))
     }
 
@@ -835,7 +836,7 @@ fn internal_response(
 ) -> Option<Vec<Act>> {
     match parsed {
         Parsed::Options => {
-            let aware = matches!(st.topo.nodes[node].shards, ShardMode::ByPort(..)).then_some(port);
+            let aware = matches!(st.topo.nodes[node].shards, ShardMode::ByPort(..) | ShardMode::ByPortShifted(..)).then_some(port);
             let mut body = body_supported_ext(false, shard, aware);
             if st.topo.tablets_ext {
                 // one more entry of the string multimap: bump the count, append key + empty value list entry
